@@ -54,10 +54,12 @@ def theorems_of(module):
     return [ns + t for t in re.findall(r"^\s*theorem\s+([A-Za-z0-9_'.]+)", src, flags=re.M)]
 
 
-def proof_obligations(pid, module, extra_modules=()):
+def proof_obligations(pid, module, extra_modules=(), prep=None):
     """lake build of the property module, forbidden-token grep, #print axioms of every property theorem."""
     res = {"module": module, "theorems": [], "failed": [], "log": ""}
     with vlib.Lock():
+        if prep is not None:
+            vlib.install_extracted(prep)
         ok, out = vlib.lake_build([module] + list(extra_modules) + ["driver"])
         res["build_ok"] = ok
         if not ok:
@@ -95,10 +97,14 @@ def run_correspondence(prep, pid, tier, seed, outdir, runner=None):
     ops = os.path.join(outdir, "ops.txt")
     dist = os.path.join(outdir, "dist.json")
     verd = os.path.join(outdir, "verdicts.txt")
-    p = vlib.run([prep["corr"], "-prop", runner or pid, "-tier", tier, "-seed", str(seed), "-out", ops, "-dist", dist],
+    binary = prep["corr"]
+    if pid == "C20" and prep.get("corr_race") and os.path.exists(prep["corr_race"]):
+        binary = prep["corr_race"]
+    p = vlib.run([binary, "-prop", runner or pid, "-tier", tier, "-seed", str(seed), "-out", ops, "-dist", dist],
                  cwd=outdir, check=False, timeout=3000)
-    if p.returncode != 0:
-        return None, "harness failed: " + (p.stdout or "")[-2000:]
+    if p.returncode != 0 or "WARNING: DATA RACE" in (p.stdout or ""):
+        open(os.path.join(outdir, "harness.log"), "w").write(p.stdout or "")
+        return None, ("DATA RACE reported by the race detector: " if "DATA RACE" in (p.stdout or "") else "harness failed: ") + (p.stdout or "")[:3000]
     drv = os.path.join(LEAN, ".lake", "build", "bin", "driver")
     with open(ops) as fi, open(verd, "w") as fo:
         r = subprocess.run([drv], stdin=fi, stdout=fo, stderr=subprocess.PIPE, text=True)
@@ -217,7 +223,7 @@ def main():
         notes.append("prepare: " + e[:300])
 
     # 2. proof obligations
-    po = proof_obligations(pid, cfg["lean_module"], cfg.get("extra_modules", ()))
+    po = proof_obligations(pid, cfg["lean_module"], cfg.get("extra_modules", ()), prep if cfg.get("needs_generated", True) else None)
     obligations = len(po["theorems"]) + 1  # +1: the module builds from the current Extracted/* facts
     discharged = sum(1 for t in po["theorems"] if t["ok"]) + (1 if po["build_ok"] else 0)
 
